@@ -1,10 +1,10 @@
 CONSTANTS
   N = 3
   Graphs <- ConnectedShapes
-  Faults = {"start", "exit"}
+  Faults = {"start"}
   AwaitStoppingInner = TRUE
   LateStart = FALSE
-SPECIFICATION LiveSpec
-INVARIANTS TypeOK StopOrderState FailurePropagates
+SPECIFICATION LiveSpecAllStarted
+INVARIANTS TypeOK StopOrderState FailurePropagates FailureIsReported
 PROPERTIES StartAfterDeps StopAfterDependants Termination FailurePropagatesLive
 CHECK_DEADLOCK TRUE
